@@ -43,6 +43,21 @@ def cases(tier):
     for d in range(1, 7):
         for ln in range(0, 10):
             add(fn='commit', degree=d, len=ln)
+    # data-dependent corners: the domains are about counts and shapes, never about the VALUES — special seeds, zero blinding factors, value 0
+    for nc in (1, 2, 4, 8):
+        for sv in ('zero', 'one', 'minus_one'):
+            add(fn='statement', bit_length=2, commitments=nc, promises=nc, cap=8, seeded=True, seed_value=sv)
+    for d in range(1, 7):
+        for ln in range(0, 8):
+            for z in ['all'] + [[k] for k in range(min(ln, 6))] + ([[0, ln - 1]] if ln >= 2 else []):
+                for val in (0, 7):
+                    add(fn='commit', degree=d, len=ln, zero=z, value=val)
+            add(fn='mask', degree=d, len=ln, zero='all')
+            add(fn='mask', degree=d, len=ln, zero=[0])
+    for sh in ([1], [2, 2], [6], [3, 3, 3, 3], [1, 2], [7], [0]):
+        for z in ('all', [0]):
+            for val in (0, None):
+                add(fn='witness', blindings=sh, zero=z, **({'value': val} if val is not None else {}))
     return out
 
 
